@@ -3,7 +3,7 @@
     by [vm_compute] inside coqc and by the extracted OCaml code, and the two texts
     must be identical. *)
 From Coq Require Import String Ascii.
-From Borno Require Import Base Num Unicode Token Lexer Ast Parser Value Eval Cli.
+From Borno Require Import Base Num Unicode Token Lexer Ast Parser Value Eval Cli Nfc.
 Open Scope N_scope.
 
 Definition s2l (s : string) : list N := map (fun a => N.of_nat (nat_of_ascii a)) (list_ascii_of_string s).
@@ -64,9 +64,10 @@ Definition rterr_name (e : rterr) : list N :=
         end
   end.
 
-Definition event_str (e : event) : list N :=
+(** what the process writes for a [দেখাও] is the NFC form of the text ([T]: the normalisation tables) *)
+Definition event_str (T : tabs) (e : event) : list N :=
   match e with
-  | EvPrint t => s2l "P:" ++ cps t
+  | EvPrint t => s2l "P:" ++ cps (nfc_with T t)
   | EvEcho t => s2l "E:" ++ cps t
   | EvPrompt t => s2l "Q:" ++ cps t
   | EvText t => s2l "T:" ++ cps t
@@ -87,7 +88,8 @@ Definition item_str (i : stderr_item) : list N :=
 (** status TAB events TAB stderr-items *)
 Definition outcome_str (o : outcome) : list N :=
   match o with
-  | PExit r => dec (p_status r) ++ [9] ++ join [32] (map event_str (p_stdout r)) ++ [9] ++ join [32] (map item_str (p_stderr r))
+  | PExit r => let T := the_tabs in
+      dec (p_status r) ++ [9] ++ join [32] (map (event_str T) (p_stdout r)) ++ [9] ++ join [32] (map item_str (p_stderr r))
   | PNoResult why =>
       s2l "noresult:" ++ s2l (match why with RFuel => "fuel" | RStuck => "stuck" | RParseFuel => "parsefuel" | _ => "other" end) ++ [9; 9]
   end.
